@@ -60,6 +60,17 @@ Theorem C07_dd_survives_if_reaches_cycle :
     In k (map nkey (gnodes (dd_g (trellis_dd g)))).
 Proof. exact dd_survives_if_reaches_cycle. Qed.
 
+(* Path form as an equivalence, kept visible and NOT proved in the "only if" direction (it needs a
+   pigeonhole argument over successor chains of the settled graph); the "if" direction is the two
+   theorems above, the greatest-fixed-point form C07_dd_survivors is proved in both directions. *)
+Definition C07_dd_survivors_path_full : Prop :=
+  forall g, NoDup (map nkey (gnodes g)) ->
+    (forall d, In d (gdeps g) -> exists n, In n (gnodes g) /\ nkey n = snd d) ->
+    forall k, In k (map nkey (gnodes (dd_g (trellis_dd g)))) <->
+      exists l, reaches g k l /\
+        ((exists n, In n (gnodes g) /\ nkey n = l /\ ndet n = false) \/
+         (exists m, succ_of g l m /\ reaches g m l)).
+
 (* After the cleanup of a successful unrestricted build with cleaning enabled (no guard of the
    regenerated chain fires): a detached file node that File.before_delete would queue (VOLATILE: v =
    None; BUILT/OUTDATED with recorded hash h: v = Some h), that is not an output of an attached
